@@ -32,7 +32,7 @@ META = {
                        "behaviour of the three transports, exactly-once across retries inside xmlrpc.client.",
     "rules": {"C01.12": "imported C09.2, C10.7 (worker CFG exploration)",
               "C01.11": "imported C05.2", "C01.1": "CFG exploration + provenance", "C01.2": "provenance of arguments", "C01.3": "exploration with a call counter",
-              "C01.4": "provenance + dominance", "C01.5": "dominance / post-dominance on normal paths", "C01.6": "provenance of the join operand", "C01.7": "shape interpreter + provenance", "C01.8": "provenance", "C01.9": "imported C17.3",
+              "C01.4": "provenance + dominance", "C01.5": "dominance / post-dominance on normal paths", "C01.6": "provenance of the join operand", "C01.7": "shape interpreter + provenance", "C01.8": "provenance", "C01.9": "imported C17.3, C17.9",
               "C01.10": "provenance of the config argument at constructor-to-constructor call sites"},
     "assumptions": ["xmlrpc.client._Method stores its two constructor arguments as __send and __name"],
 }
@@ -83,7 +83,7 @@ def check(ck):
             ck.require(pair is not None and set(pair) == set([va, kw]), "C01.1", "%s: forwards `%s`" % (q.fn(fi), dump(src)[:50]),
                        "the non-empty argument collection, else the other one",
                        "the call forwards `%s`: not `args if args else kwargs` (or an equivalent form)" % dump(src)[:60], q.loc(fi, n1_))
-            raises = [n for n in g.live_nodes() if n.kind == "raise" and "ProtocolError" in dump(n.ast.exc)]
+            raises = [n for n in g.live_nodes() if n.kind == "raise" and n.ast.exc is not None]      # (which exception is not the property's business)
             guard_ok = False
             dd_ = dominators(g)
             for rz in raises:
@@ -128,7 +128,7 @@ def check(ck):
             else:
                 ck.require(t in (("param", va), ("param", kw)), "C01.1", label, "an (empty) argument collection is forwarded",
                            "%s is sent instead of the caller's arguments" % prov.show(t), q.loc(fi, g.nodes[nid]), ex.describe_path(st))
-        raises = [n for n in g.live_nodes() if n.kind == "raise" and "ProtocolError" in dump(n.ast.exc)]
+        raises = [n for n in g.live_nodes() if n.kind == "raise" and n.ast.exc is not None]
         ck.require(bool(raises), "C01.1", "%s: raise ProtocolError for args+kwargs" % q.fn(fi), "present",
                    "mixing positional and keyword arguments is not rejected", q.loc(fi, fi.node))
         if not send_is_store:
@@ -583,8 +583,8 @@ def check(ck):
 
     # ---- C01.9 body reassembly on both sides (shared with C17.3) ---------------------------------------------------------
     from rules import c17
-    common.import_rules(ck, c17, {"C17.3": "C01.9"})
-    ck.floor("C01.9", 5)
+    common.import_rules(ck, c17, {"C17.3": "C01.9", "C17.9": "C01.9"})      # (and the request line: C17.9)
+    ck.floor("C01.9", 11)
 
     # ---- C01.10 the caller's Config reaches every layer ---------------------------------------------------------------------
     common.check_config_forwarding(ck, "C01.10")
